@@ -269,7 +269,10 @@ def _guard_drop(F, t):
     return key, env
 
 
-def inline_body(F, b, pred=None, depth=3, stack=(), max_blocks=600, drops=False):
+FN_TRAITS = ("core::ops::function::FnOnce", "core::ops::function::FnMut", "core::ops::function::Fn")
+
+
+def inline_body(F, b, pred=None, depth=3, stack=(), max_blocks=600, drops=False, closures=False):
     """Synthetic copy of body b with qualifying calls inlined (or b itself if there is nothing to inline).
     drops=True: the destructor of a private guard value is inlined where the value is dropped (`let _g = FreeOnDrop::new(p); ..`)."""
     if pred is None:
@@ -307,20 +310,30 @@ def inline_body(F, b, pred=None, depth=3, stack=(), max_blocks=600, drops=False)
             bl["term"] = {"k": "call", "args": [{"mv": {"l": tl, "p": [], "ty": rty}}], "arg_tys": [rty], "dest": {"l": dl, "p": [], "ty": cb["locals"][0]["ty"]}, "target": t.get("target"), "unwind": t.get("unwind"), "callee": key, "callee_local": True, "callee_args": gargs, "callee_name": "drop",
                           "resolved": {"kind": "Item", "def": key, "local": True, "args": gargs}, "span": t["span"], "guard_drop": True}
             t = bl["term"]
-        if i in skip or t["k"] != "call":
+        if t["k"] != "call":
             i += 1
             continue
         r = t.get("resolved")
         key = r["def"] if isinstance(r, dict) else t.get("callee")
+        closure_call = False
+        if closures and t.get("callee_trait") in FN_TRAITS and isinstance(t.get("callee_self"), int) and F.ty(t["callee_self"])["k"] == "closure" and len(t["args"]) == 2:
+            # `f(x)` where f's type is (after substitution) a closure of this crate: the closure body, its environment = the
+            # callable value, its parameters = the fields of the argument tuple
+            ck = F.ty(t["callee_self"]).get("def")
+            if ck in F.bodies and ck not in stack and ck != b["key"]:
+                key, closure_call = ck, True
+        if i in skip and not closure_call:
+            i += 1  # blocks that came from an inlined callee were scanned when that callee was inlined - except for calls of
+            continue  # its callable parameters, which only now (after type substitution) are known to be closures of this crate
         cb = F.body(key) if key else None
-        if cb is None or key in stack or key == b["key"] or not (pred(key) or t.get("guard_drop")) or len(blocks) + len(cb["blocks"]) > max_blocks:
+        if cb is None or key in stack or key == b["key"] or not (closure_call or pred(key) or t.get("guard_drop")) or len(blocks) + len(cb["blocks"]) > max_blocks:
             i += 1
             continue
-        env = _instantiation_env(F, t, cb)
-        if env is None or len(t["args"]) != cb["arg_count"]:
+        env = {} if closure_call else _instantiation_env(F, t, cb)
+        if env is None or (not closure_call and len(t["args"]) != cb["arg_count"]):
             i += 1
             continue
-        cbi = inline_body(F, cb, pred, depth - 1, stack + (b["key"],), max_blocks, drops)
+        cbi = inline_body(F, cb, pred, depth - 1, stack + (b["key"],), max_blocks, drops, closures)
         if env:
             # the callee is instantiated at other types than its own parameters (`Allocation::<H, MaybeUninit<T>>::new`):
             # rewrite every type it mentions
@@ -339,9 +352,26 @@ def inline_body(F, b, pred=None, depth=3, stack=(), max_blocks=600, drops=False)
         dest, target, unwind = t["dest"], t.get("target"), t.get("unwind")
         in_cleanup = bool(bl.get("cleanup"))
         # arguments
-        for j, a in enumerate(t["args"]):
-            lj = lo + 1 + j
-            bl["stmts"].append({"k": "assign", "lhs": {"l": lj, "p": [], "ty": nb["locals"][lj]["ty"]}, "rv": {"k": "use", "op": copy.deepcopy(a)}, "span": t["span"], "inlined_arg": key})
+        if closure_call:
+            envl = lo + 1
+            envt = nb["locals"][envl]["ty"]
+            a0 = copy.deepcopy(t["args"][0])
+            pl0 = a0.get("mv") or a0.get("cp")
+            if F.ty(envt)["k"] == "ref" and pl0 is not None and F.ty(pl0.get("ty", envt))["k"] != "ref":
+                bl["stmts"].append({"k": "assign", "lhs": {"l": envl, "p": [], "ty": envt}, "rv": {"k": "ref", "mut": bool(F.ty(envt).get("mut")), "bk": "Shared", "place": pl0}, "span": t["span"], "inlined_arg": key})
+            else:
+                bl["stmts"].append({"k": "assign", "lhs": {"l": envl, "p": [], "ty": envt}, "rv": {"k": "use", "op": a0}, "span": t["span"], "inlined_arg": key})
+            tup = t["args"][1].get("mv") or t["args"][1].get("cp")
+            for j in range(cbi["arg_count"] - 1):
+                lj = lo + 2 + j
+                lty = nb["locals"][lj]["ty"]
+                if tup is not None:
+                    src = {"mv": {"l": tup["l"], "p": list(tup["p"]) + [{"f": j, "ty": lty, "adt": "(tuple)"}], "ty": lty}}
+                    bl["stmts"].append({"k": "assign", "lhs": {"l": lj, "p": [], "ty": lty}, "rv": {"k": "use", "op": src}, "span": t["span"], "inlined_arg": key})
+        else:
+            for j, a in enumerate(t["args"]):
+                lj = lo + 1 + j
+                bl["stmts"].append({"k": "assign", "lhs": {"l": lj, "p": [], "ty": nb["locals"][lj]["ty"]}, "rv": {"k": "use", "op": copy.deepcopy(a)}, "span": t["span"], "inlined_arg": key})
         for cbl in cbi["blocks"]:
             nbl = {"stmts": _remap(cbl["stmts"], lo), "cleanup": bool(cbl.get("cleanup")) or in_cleanup}
             ct = _remap(cbl["term"], lo)
@@ -375,6 +405,15 @@ def inline_body(F, b, pred=None, depth=3, stack=(), max_blocks=600, drops=False)
         return b
     nb["inlined"] = inlined
     return nb
+
+
+def inlined_full(F, key):
+    """Private helpers and the closures handed to them, inlined (a visitor `with_arc(|x| .., |y| ..)` becomes straight code)."""
+    cache = F.__dict__.setdefault("_inlined_full_bodies", {})
+    if key not in cache:
+        b = F.body(key)
+        cache[key] = inline_body(F, b, None, depth=5, closures=True) if b is not None else None
+    return cache[key]
 
 
 def inlined_with_drops(F, key):
